@@ -791,14 +791,15 @@ def run_impl_resilient(ctx, exe, name, cases, per_case_timeout=60, alone=lambda 
     for i, c in enumerate(cases):
         if alone(c): out[i] = single(i)
     start = 0; tries = 0
-    while start < len(batch) and tries < 60:
-        idx = batch[start:]
+    while start < len(batch) and tries < 400:
+        idx = batch[start:start + 60]                    # small batches: a case that hangs costs one batch time limit only
         cf = write_cases(ctx, '%s_%d' % (name, tries), [cases[i] for i in idx])
-        rc, res = run_impl(ctx, exe, cf, timeout=max(300, 60 * min(len(idx), 20)))
-        for k, r in enumerate(res): out[idx[k]] = r
-        if len(res) >= len(idx): break
+        rc, res = run_impl(ctx, exe, cf, timeout=150)
+        for k, r in enumerate(res[:len(idx)]): out[idx[k]] = r
+        tries += 1
+        if len(res) >= len(idx): start += len(idx); continue
         out[idx[len(res)]] = single(idx[len(res)])
-        start += len(res) + 1; tries += 1
+        start += len(res) + 1
     return out
 
 def gen_field(rng, kind, x):
@@ -878,7 +879,7 @@ def gen_fit_case(rng, tag, quick):
             case = rng.choice([T_LOWER, T_UPPER, T_EQUAL, T_EQUAL])
             if elem == E_SILL: r = Fraction(rng.randint(1, 12), 4); val = r * r
             elif elem == E_ANGLE: val = Fraction(rng.randint(-8, 16) * 45, 4)
-            elif elem == E_PARAM: val = Fraction(rng.randint(2, 14), 8)
+            elif elem == E_PARAM: val = Fraction(rng.randint(4, 14), 8)
             else: val = Fraction(rng.randint(1, 80), 8)
             items.append([0, icov, elem, iv1, 0, case, dy(val)])
         if rng.random() < .1 and items:      # a pair lower > upper on the same parameter
@@ -981,14 +982,18 @@ def check_fit_result(ctx, c, ii):
         S.append({'type': st[0], 'sill': unmat(st[1]), 'ranges': [undy(x) for x in st[2]], 'angles': [undy(x) for x in st[3]],
                   'param': undy(st[4]), 'hasrange': st[5], 'hasparam': st[6]})
     if not S: return [('%s:empty-model' % combo, 'the fit reports success and returns a model without any structure')]
-    # P1 sills
+    # P1 sills (min eigenvalue >= -1e-10 x trace, plus 1e-10 x the largest sill of the whole model: dust such as -1e-60 beside a zero diagonal is not judged)
+    sill_scale = max([abs(v) for st in S for r in st['sill'] for v in r if v is not None] + [Fraction(0)])
     for k, st in enumerate(S):
         M = st['sill']
         if any(v is None for r in M for v in r): out.append(('%s:sill-undefined' % combo, 'structure %d (type %d): sill matrix holds NaN/undefined values' % (k, st['type']))); break
         if sym_defect(M) != 0: out.append(('%s:sill-not-symmetric' % combo, 'structure %d: sill matrix not symmetric' % k)); break
-        if not is_psd_exact(M): out.append(('%s:sill-not-psd' % combo, 'structure %d (type %d): sill matrix %s has a negative eigenvalue' % (k, st['type'], [[float(x) for x in r] for r in M]))); break
+        if not is_psd_exact([[M[i][j] + (Fraction(1, 10**10) * sill_scale if i == j else 0) for j in range(nvar)] for i in range(nvar)]): out.append(('%s:sill-not-psd' % combo, 'structure %d (type %d): sill matrix %s has a negative eigenvalue' % (k, st['type'], [[float(x) for x in r] for r in M]))); break
     # P2 ranges
     for k, st in enumerate(S):
+        if st['hasrange'] != 0 and any(r is None for r in st['ranges'][:ndim]) and st['hasparam'] and st['param'] is not None and st['param'] <= Fraction(5, 1000):
+            # one cause, one key: the default lower bound 0.001 of the third parameter makes the range <-> scale conversion overflow
+            out.append(('%s:third-parameter-at-lower-bound:range-undefined' % PATHS[path], 'structure %d (type %d): third parameter %s, ranges %s' % (k, st['type'], fl(st['param']), [fl(r) for r in st['ranges']]))); break
         if st['hasrange'] != 0 and any(r is None or r <= 0 for r in st['ranges'][:ndim]):
             out.append(('%s:range-not-positive' % combo, 'structure %d (type %d): ranges %s' % (k, st['type'], [fl(r) for r in st['ranges']]))); break
     # mapping original structure index -> final structure (reduction may have dropped some); types are distinct
@@ -1019,9 +1024,11 @@ def check_fit_result(ctx, c, ii):
             bad = ('lo' in sides and g < v - t) or ('up' in sides and g > v + t)
         if bad:
             an_inf, rot_inf = inferred_params(c)
-            not_inferred = (elem == E_RANGE and iv1 > 0 and iv1 not in an_inf) or (elem == E_ANGLE and not rot_inf)
-            key = '%s:constraint:after-reduction:not-satisfied' % PATHS[path] if len(S) < len(types) else \
-                  '%s:constraint-on-parameter-not-inferred:not-satisfied' % PATHS[path] if not_inferred else \
+            first_rot = next((k for k, t in enumerate(types) if t != 0), None)
+            not_inferred = (elem == E_RANGE and iv1 > 0 and iv1 not in an_inf) or (elem == E_ANGLE and not rot_inf) or \
+                           (elem == E_ANGLE and opts[4] and icov != first_rot)          # lock_samerot: one structure carries the rotation
+            key = '%s:constraint-on-parameter-not-inferred:not-satisfied' % PATHS[path] if not_inferred else \
+                  '%s:constraint:after-reduction:not-satisfied' % PATHS[path] if len(S) < len(types) else \
                   ('%s:constraint-sill:%s:not-satisfied' % (PATHS[path], 'goulard' if opts[1] else 'no-goulard') if elem == E_SILL else '%s:constraint-%s-%s:not-satisfied' % (PATHS[path], ELEM[elem], CASE[case]))
             out.append((key,
                         'structure %d (type %d): %s[%d] = %r, user constraint %s %r' % (icov, st['type'], ELEM[elem], iv1, g, CASE[case], v)))
@@ -1052,7 +1059,7 @@ def check_fit_result(ctx, c, ii):
                             'structure %d (type %d): ranges %s; the ranges of rank %s are not parameters of this fit (inferred ranks: %s) and must equal the range of rank 0'
                             % (k, st['type'], [fl(x) for x in r], badk, sorted(ranks)))); break
     # P6 constant sill (C17_constant_sill_expand / _to_goulard): the diagonal sills of variable v add up to the total imposed on v
-    if cons_sill != [] and opts[1] and not opts[9] and len(S) > 0:
+    if cons_sill != [] and opts[1] and not opts[9] and len(S) > 0 and mauto[0] >= 50:     # the total is reached by the iterations, not by construction
         val, _ = cons_forms(cons_sill)
         tot = imposed_totals(cons_sill, nvar)
         for v in range(nvar):
@@ -1060,8 +1067,10 @@ def check_fit_result(ctx, c, ii):
             got = sum(st['sill'][v][v] for st in S)
             if abs(got - tot[v]) > Fraction(1, 10**6) * (1 + abs(tot[v])):
                 form = 'scalar' if isinstance(cons_sill[0], int) else ('vector-without-scalar' if val is None else 'vector')
-                if any(it[2] == E_SILL for it in items): form = 'with-sill-item'      # a ConsItem on a sill switches Goulard (hence the constant sill) off
-                out.append(('impl-vs-spec:%s:constant-sill-%s:total-sill-differs-from-imposed%s' % (PATHS[path], form, ':after-reduction' if len(S) < len(types) and form != 'with-sill-item' else ''),
+                if path in (0, 1) and any(it[2] == E_SILL for it in items): form = 'with-sill-item'      # a ConsItem on a sill switches Goulard (hence the constant sill) off
+                if path == 3 and all(t == 0 for t in types): form = 'no-free-parameter'      # nlopt has nothing to optimise: the Goulard step is never run
+                if len(S) < len(types) and form != 'with-sill-item': form = 'after-reduction'     # structures dropped after the last constrained Goulard run
+                out.append(('impl-vs-spec:%s:constant-sill-%s:total-sill-differs-from-imposed' % (PATHS[path], form),
                             'variable %d: the sills of the %d structure(s) add up to %s, the total imposed by the user is %s (constraint: value %s, per-variable %s)'
                             % (v, len(S), fl(got), fl(tot[v]), fl(val), [fl(x) for x in cons_forms(cons_sill)[1]]))); break
     # P5 save / reload / krige
@@ -1304,7 +1313,7 @@ def directed_fit_cases():
 
 def stage_fit(ctx, exe, runner, quick):
     rng = ctx.rng
-    N = 150 if quick else 1500
+    N = 150 if quick else 600
     cases = [c for c in load_corpus(ctx) if c and c[0] == 10] + directed_fit_cases()
     ncorpus = len(cases)
     cases += [gen_fit_case(rng, i, quick) for i in range(N)]
@@ -1312,7 +1321,17 @@ def stage_fit(ctx, exe, runner, quick):
     descr = run_impl_resilient(ctx, exe, 'fitdescr', [[12] + c[1:] for c in cases])
     for c, d in zip(cases, descr):
         if isinstance(d, list) and len(d) == 3: DESCR[c[13]] = d
-    res = run_impl_resilient(ctx, exe, 'fit', cases, per_case_timeout=15, alone=lambda c: c[1] in (2, 3))
+    # the ModelOptim* classes (not reachable from Model::fit) are judged only on experimental variograms in which every pair of
+    # variables has at least one valid lag: on sparser data they index empty arrays (all lags empty) or divide by zero, which
+    # the property excludes; Model::fit / fitFromVMap are judged on those data too (they refuse, or fit a zero cross-sill)
+    keep = []
+    for c in cases:
+        d = DESCR.get(c[13])
+        if c[1] in (2, 3) and d and any(v == 0 for v in d[0]):
+            ctx.cov['tie_excluded'] += 1; ctx.dist('fit_excluded_ModelOptim_pair_without_valid_lag'); continue
+        keep.append(c)
+    cases = keep
+    res = run_impl_resilient(ctx, exe, 'fit', cases, per_case_timeout=15, alone=lambda c: c[1] in (2, 3) or c[11] != [])
     mcases = []; mmeta = []
     for c, ii in zip(cases, res):
         ctx.count(sx_str(c)[:4000]); ctx.dist('fit_' + fit_combo(c)); ctx.dist('fit_ndim%d_nvar%d_ncov%d' % (c[2], c[3], len(c[7])))
@@ -1359,6 +1378,9 @@ def run(ctx):
         'NOT covered by theorems: convergence / optimality of foxleg_f and of the Goulard iterations, the quadratic programme of foxleg_f (st_minimization_under_constraints: only its box is modelled, the step '
         'actually taken is observed through the hook), the constrained Goulard (_goulardWithConstraints, _minimizeP4) beyond its final PSD repair, st_model_auto_strmod_reduce, tapering / second model / '
         'anamorphosis variants of the parameter list, the nlopt optimiser of ModelOptimVario. These are sampled by the post-condition oracle only',
+        'third-parameter constraints are drawn in [0.5, 1.75], inside the validity domain of every structure used (J-Bessel order >= (ndim-2)/2: the library clamps a smaller value); '
+        'the ModelOptim* classes are judged only when every pair of variables has a valid lag (counted under tie_excluded otherwise); '
+        'the imposed total sill is judged only for maxiter >= 50 (it is reached by the iterations of the constrained Goulard, not by construction); '
         'post-conditions are judged on non-degenerate data for kriging (not every variable constant, distinct locations); bounds (not equalities) on angles are not judged (wrap-around); constraints on a '
         'parameter that the user himself removed (range of rank >= 1 under isotropy, angle with locked rotation) are not judged; ModelOptim* classes have no code for constraint items / options: only sills, '
         'ranges and usability are judged there',
